@@ -4,7 +4,7 @@ from common import *
 import abigen, e2e, tablegen
 
 PROP = "C02"
-HEADER = ("From Coq Require Import List ZArith Bool.\nImport ListNotations.\nLocal Open Scope Z_scope.\nFrom DV Require Import Cpp.Model.")
+HEADER = ("From Coq Require Import List ZArith Bool.\nImport ListNotations.\nLocal Open Scope Z_scope.\nFrom DV Require Import Cpp.Model Cpp.Ops.")
 
 
 class P:
@@ -100,7 +100,7 @@ def check(ctx, replay=None):
     goals, viol, ncalls, nontriv, samples, stds_used = [], 0, 0, set(), [], set()
     def violate(key, obj, found=True):
         nonlocal viol
-        if viol < 3:
+        if len(ctx.violations) < 3:
             viol += 1
             ctx.violation(key, obj, found)
     nb = 1 if ctx.quick() else 8
@@ -176,12 +176,16 @@ def check(ctx, replay=None):
                     goals.append("false")
             if bi == 0 and std == "c++17":
                 samples = [{"method": calls[i]["m"]["name"], "params": [mod.rust_ty(t) for _, t in calls[i]["m"]["params"]], "observed": recs.get(i)} for i in (0, len(calls) // 2)]
-    import c02_extra, c03_e2e
-    nextra = c02_extra.run(ctx, ("c++17",) if ctx.quick() else ("c++17", "c++20"))
+    import c02_extra, c03_e2e, c02_special, c10_extra
+    xstds = ("c++17",) if ctx.quick() else ("c++17", "c++20")
+    nextra = c02_extra.run(ctx, xstds)
+    # synthesised operators (binary, compound assignment, relational, indexer) and results whose arms carry no bytes
+    nextra += c02_special.run(ctx, xstds, goals=goals)
+    nextra += c10_extra.run(ctx, ("cpp",), xstds)
     # callbacks: values and state carried through the std::function trampoline (shared with C03's lifecycle histories)
     c03_e2e.run_cpp_callbacks(ctx)
     fails = run_shards(PROP, HEADER, goals) if goals else []
-    if fails and viol == 0:
+    if fails and not ctx.violations:
         ctx.violation("corr:transport", {"broken": "correspondence goal " + goals[fails[0]][:500] + " : Cpp/Model.v's conversion semantics do not reproduce the observed transport"}, False)
     return batch_evidence(
         ctx, PROP, phase, goals, fails, ncalls, len(nontriv),
